@@ -53,6 +53,7 @@ def comps_for_domain(task, tier, d_max):
                     for ks in R.knob_settings(s, d_max, tier, p_eff, multitask):
                         kw = dict(HARNESS_DEFAULTS.get(s, {}))
                         kw.update(ks["kw"])
+                        kw = R.fix_kw(s, dn, kw)
                         if s == "GramCD" and kw.get("use_acc") and kw.get("greedy_cd", True):
                             continue            # documented as unsupported (UserWarning)
                         sspec = dict(name=s, kw=kw)
